@@ -770,6 +770,19 @@ func run(c *fw.Ctx) {
 			}
 		}
 	}
+	// containers with different tag names
+	if c.Mine(9000003) {
+		c.R.Evaluations++
+		c.Count("tag_name_cases", 1)
+		if f := runTagNames(); f != nil {
+			sg := "C10/" + f.kind
+			if !c.Violated(sg) {
+				c.Violate(&fw.Violation{Property: "C10", Clause: f.clause, Signature: sg, Detail: f.detail, Witness: fw.JSON(map[string]interface{}{"tag_names": true})})
+			} else {
+				c.Violate(&fw.Violation{Signature: sg})
+			}
+		}
+	}
 	// the library's own registrations are defaults
 	if c.Mine(9000001) {
 		cases, err := appDefaultCases()
@@ -795,6 +808,15 @@ func run(c *fw.Ctx) {
 }
 
 func replay(wj json.RawMessage) (*fw.Violation, error) {
+	var tw struct {
+		Tag bool `json:"tag_names"`
+	}
+	if err := json.Unmarshal(wj, &tw); err == nil && tw.Tag {
+		if f := runTagNames(); f != nil {
+			return &fw.Violation{Property: "C10", Clause: f.clause, Signature: "C10/" + f.kind, Detail: f.detail}, nil
+		}
+		return nil, nil
+	}
 	var iw InjSeq
 	if err := json.Unmarshal(wj, &iw); err == nil && len(iw.Requests) > 0 {
 		if f := runInjectorSeq(iw); f != nil {
